@@ -137,6 +137,9 @@ def outfile_rule(repo, res, rule="OUTFILE"):
                 if t and t[0] == "field":
                     out.add("." + str(t[2]))
                     return
+                if t and t[0] == "bind" and not (str(t[1]).split("::")[-1] in ("Some", "Ok") and str(t[2]) == "0"):
+                    out.add("." + str(t[2]))   # `let Cli { bash: bash_path, .. } = args`: the field the local was bound from
+                    return
                 if t and t[0] == "param":
                     idx = t[1]
                     if depth >= 3:
